@@ -17,6 +17,10 @@ CHECKS = {
    technique="exhaustive enumeration of frame lists x framer parameters x fragmentations (all compositions / deviation-bounded incl. Pending) through the real Sink and Stream; exhaustive hostile byte strings over an interesting alphabet; exhaustive ancillary message lists x buffer sizes",
    text="Round trip: every list of <= 2-3 frames (payloads over alphabets that include the delimiter's own bytes) for LengthDelimited (every width 1..8 x endianness), CharDelimited, AnyDelimited is encoded by the real Sink (scripted writer: short writes, Interrupted, Pending) and decoded by the real Stream under every fragmentation (all compositions for streams <= 10 bytes, <= 2/3 deviations otherwise); hostile: all byte strings over {00,01,7f,80,ff,delim} up to length-field width + 2, whole and bytewise, must yield frames/errors/end, no panic, no endless loop; ancillary: all lists of <= 3 messages of 5 payload sizes x 19 buffer sizes round-trip through builder and iterator with exact fit/too-small decisions; serde_json codec round trip.",
    note="Trusted: scripted reader/writer; BytesCodec as payload carrier. Built with overflow checks on (an arithmetic overflow is a panic and is reported). AncillaryIter is only fed builder output (its constructor is unsafe). Observation outside the property (counted in evidence, not a verdict): SinkExt::send returns before the transport is flushed."),
+ "C12": dict(engine="e2pure", design="§2/C12",
+   technique="exhaustive caller-program enumeration (depth-bounded) x deviation-bounded scripted inner stream (short, Interrupted, error, park-until-gate) on the real SyncStream / AsyncReadStream / AsyncWriteStream, reference-FIFO and wake-obligation oracle",
+   text="Every caller program up to depth 4 (quick) / 5 (thorough) over the adapters' entry points is run on the real code for base capacities {1,2,4} and limits {2,4,8}, with every placement of <= 1-3 inner-stream deviations; oracle: bytes produced by the inner reader == bytes delivered + into_parts() remainder, bytes accepted by write == bytes received by the inner writer after a (retried) flush/close, would-block exactly when the reference model needs servicing, limits honoured, Pending only when the inner stream is parked, and every entry point that returned Pending has its latest (fresh per poll) waker woken when the gate opens.",
+   note="Trusted: scripted inner streams and the gate (c12.rs, env.rs). The thorough tier caps each scenario at 3e6 executions and says so (exhaustive=false with caps listed). Known finding: read-side limit overshoot below base_capacity."),
 }
 
 NOT_YET = {
